@@ -729,57 +729,72 @@ func runB12(p *an.Prog, r *an.Result) {
 			c, m, ok := lin(v)
 			return ok && c == 1 && m["e"] == 1 && m["b"] == -1 && len(m) == 2
 		}
-		// which side of e < b are we on?
-		side := ""
-		for _, g := range an.GuardsAtInstr(ret) {
-			if bo, ok := g.Cond.(*ssa.BinOp); ok {
-				x, y := fieldOf(lenFn, bo.X), fieldOf(lenFn, bo.Y)
-				lt := (bo.Op == token.LSS && x == "e" && y == "b") || (bo.Op == token.GTR && x == "b" && y == "e")
-				ge := (bo.Op == token.GEQ && x == "e" && y == "b") || (bo.Op == token.LEQ && x == "b" && y == "e")
-				if lt {
-					if g.True {
-						side = "empty"
-					} else {
-						side = "nonempty"
+		// one (value, block) pair per way the result comes about: the return itself, or each edge of a phi
+		judge := func(v ssa.Value, blk *ssa.BasicBlock) (bool, string) {
+			guards := an.GuardsAt(blk)
+			// which side of e < b are we on?
+			side := ""
+			for _, g := range guards {
+				if bo, ok := g.Cond.(*ssa.BinOp); ok {
+					x, y := fieldOf(lenFn, bo.X), fieldOf(lenFn, bo.Y)
+					lt := (bo.Op == token.LSS && x == "e" && y == "b") || (bo.Op == token.GTR && x == "b" && y == "e")
+					ge := (bo.Op == token.GEQ && x == "e" && y == "b") || (bo.Op == token.LEQ && x == "b" && y == "e")
+					if lt {
+						if g.True {
+							side = "empty"
+						} else {
+							side = "nonempty"
+						}
 					}
-				}
-				if ge {
-					if g.True {
-						side = "nonempty"
-					} else {
-						side = "empty"
-					}
-				}
-			}
-		}
-		good := false
-		if c, ok := an.ConstInt(v); ok && c == 0 && side == "empty" {
-			good = true
-		}
-		if isDiff(v) && side == "nonempty" {
-			good = true
-		}
-		// saturation: on the non-empty side, where the difference was found not to be positive (it wrapped
-		// around: more elements than an int counts), the largest int is returned
-		if c, ok := an.ConstInt(v); ok && c == math.MaxInt64 && side == "nonempty" {
-			for _, g := range an.GuardsAtInstr(ret) {
-				if bo, ok := g.Cond.(*ssa.BinOp); ok && isDiff(bo.X) {
-					if z, isC := an.ConstInt(bo.Y); isC && z == 0 && (bo.Op == token.GTR && !g.True || bo.Op == token.LEQ && g.True) {
-						good = true
+					if ge {
+						if g.True {
+							side = "nonempty"
+						} else {
+							side = "empty"
+						}
 					}
 				}
 			}
-		}
-		if cc := an.CallOf(v); cc != nil && an.CallName(cc) == "builtin.max" && len(cc.Args) == 2 {
-			z, d := false, false
-			for _, a := range cc.Args {
-				if c, ok := an.ConstInt(a); ok && c == 0 {
-					z = true
-				} else if isDiff(a) {
-					d = true
+			good := false
+			if c, ok := an.ConstInt(v); ok && c == 0 && side == "empty" {
+				good = true
+			}
+			if isDiff(v) && side == "nonempty" {
+				good = true
+			}
+			// saturation: on the non-empty side, where the difference was found not to be positive (it wrapped
+			// around: more elements than an int counts), the largest int is returned
+			if c, ok := an.ConstInt(v); ok && c == math.MaxInt64 && side == "nonempty" {
+				for _, g := range guards {
+					if bo, ok := g.Cond.(*ssa.BinOp); ok && isDiff(bo.X) {
+						if z, isC := an.ConstInt(bo.Y); isC && z == 0 && (bo.Op == token.GTR && !g.True || bo.Op == token.LEQ && g.True) {
+							good = true
+						}
+					}
 				}
 			}
-			good = z && d
+			if cc := an.CallOf(v); cc != nil && an.CallName(cc) == "builtin.max" && len(cc.Args) == 2 {
+				z, d := false, false
+				for _, a := range cc.Args {
+					if c, ok := an.ConstInt(a); ok && c == 0 {
+						z = true
+					} else if isDiff(a) {
+						d = true
+					}
+				}
+				good = z && d
+			}
+			return good, side
+		}
+		good, side := judge(v, ret.Block())
+		if ph, isPhi := v.(*ssa.Phi); isPhi && !good {
+			good = len(ph.Edges) > 0
+			for i, e := range ph.Edges {
+				if g, _ := judge(e, ph.Block().Preds[i]); !g {
+					good = false
+				}
+			}
+			side = "phi"
 		}
 		if good {
 			r.OK(an.FuncName(lenFn), "returns "+describe(p, v)+" on the "+nonEmpty(side, "clamped")+" side", ret.Pos(), "max(0, e+1-b) as linear forms over the two endpoints")
